@@ -4,3 +4,4 @@ CONSTANTS
   MBug = "none"
 INVARIANT Final
 CHECK_DEADLOCK FALSE
+VIEW TraceView
